@@ -6,14 +6,44 @@ import KyupyVerif.Proofs.GenOpsWO
 import KyupyVerif.Proofs.StripLinkMem
 import KyupyVerif.Proofs.MemMapAccept
 import KyupyVerif.Gen.Tables
+import KyupyVerif.Proofs.CycleNet
+import KyupyVerif.Proofs.CycleMem
+import KyupyVerif.Proofs.CycleRel
+import KyupyVerif.Proofs.CycleStrip
 /-! # C01 — 2-valued logic simulation computes the netlist's Boolean function
 
 Generated from the working tree: `Gen.sem2n` (what `logic_sim._prop_cpu` computes for an op code),
 `Gen.sem2p` (`LogicSim.c_prop()` at m=2), `Gen.sem2c` (the `inject_cb` chain), `Gen.prims`
 (`sim.names`), `Gen.kindPrefixes` (`sim.kind_prefixes`, in dictionary order).
-Hand model tied by exact correspondence: `genOps`, `levelise`, `memMap` (Model/SimOps.lean).
+Hand model tied by exact correspondence: `genOps`, `levelise`, `memMap` (Model/SimOps.lean); the state handling around
+`c_prop` — `s_to_c`, `c_to_s`, `s_ppo_to_ppi`, `cycle(k)` and the index tables `pi/po/ppio/pippi/poppo_s_locs` — is
+Model/Cycle.lean (`Cycle.tabsOf`, `sToC`, `cToS`, `ppoToPpi`, `cycle1`, `cycleK`; array form `cycleKA` run by the driver).
 Memory level for ALL circuits: `logic_sim_end_to_end_all_circuits` (the map certificate is the theorem `C08.simops_map_accepted`).
-Specification: `formula`, `specPrimName`, `evalLine` (Model/Prim.lean, Model/Net.lean). -/
+Specification: `formula`, `specPrimName`, `evalLine` (Model/Prim.lean, Model/Net.lean).
+
+What is THEOREM for the sequential statement ("`cycle(k)` iterates the next-state function k times, primary-input rows of
+`s[0]` untouched"), for every well-formed netlist, every topological order, every value domain / op semantics (so also with
+a pure injection callback folded into `sem`, C16), every `merge` (m = 2, 4: copy; m = 8: transition builder), every k:
+* (6) `cycle_step` — one cycle stores at `s[1][p]` the value ANY solution of the gate equations gives the captured line
+  (constant slot for a state element with open data pin, nothing for a port without data pin), keeps port rows of `s[0]`,
+  sets state rows of `s[0]` to `merge old s[1][p]`; `cycle_zero_slot`;
+* (7) `cycle_iter` — `s[0]` after `cycle(k)` = `N^k s[0]`, `N = Cycle.nextState` (defined by THE solution: (7') `nextState_unique`),
+  port rows constant, `s[1]` = capture of the labelling of `N^(k-1) s[0]`; memory left by earlier cycles is irrelevant;
+* (7'') `cycle_array_form` — the driver's array form = the model;
+* (8) `cycle_on_memory`, (8') `cycle_end_to_end` — the loop ON MEMORY (`s_to_c` writes rows `c_locs[ppi_offset+p]`, real op rows on
+  memory, `c_to_s` reads rows `c_locs[ppo_offset+p]`; any allocator, `c_reuse`, `strip_forks`) = the signal-level loop, under the
+  accepted map certificate (C08) and the decidable table condition `zeroCapB`;
+* (9) `cycle_lanes` — lane k of the bit-parallel loop = the one-lane loop on lane k, any batch size, any k;
+* (10) `cycle_strip_irrelevant` — `s` after `cycle(k)` does not depend on `strip_forks` (hypotheses `forksOKB`, `capDriversB`).
+CORRESPONDENCE (harness/c01.py `cycle_tie`, every generated sequential case, m = 2, 4, 8, {strip_forks} x {c_reuse}, both
+`c_prop` code paths, k = 0..5, random `s[0]`, `s[1]` in all planes, all lanes): `pippi/poppo/ppio_s_locs` and
+`pippi/poppo_c_locs` of the real `LogicSim` = the model's tables; `s[0]`, `s[1]` after the real `cycle(k)` = `cycleKA k`;
+certificates `zeroCapB` (real `c_locs`), `capDriversB`, `forksOKB`, `wfB`, `orderOKB` (real order) per case.
+Still ORACLE / per-instance only: that the real map passes the certificate (C08, per instance);
+(a state element without output pin list has no (P)PI slot: `pippi_s_locs` skips it since fix 7a998c8 — before, `s_to_c` stored
+through `c_locs = -1` into the last memory row; the model follows the repaired table, `Cycle.ppiUsedS`, so (8) needs no side condition on it);
+the bit-plane packing of `s` is outside the model (one value per lane and position = the first mdim planes; the planes
+>= mdim that `s_ppo_to_ppi` copies along and the plane-1 copy `c_to_s` makes for m = 2 are neither modelled nor compared). -/
 namespace KV.C01
 open KV KV.Sig
 
@@ -190,6 +220,246 @@ example : readsDrivenB Gen.kindPrefixes demoNet [0, 2, 1, 3, 4, 5, 6] = true ∧
     (simopsMap Gen.kindPrefixes demoNet [0, 2, 1, 3, 4, 5, 6] false (fun _ => 1) 1 true).cLen = demoMap.cLen := by
   decide +kernel
 
+
+/-! ### the sequential part: `s_to_c`, `c_to_s`, `s_ppo_to_ppi`, `cycle(k)`
+
+Model `Cycle.cycle1 / Cycle.cycleK` (Model/Cycle.lean, signal level: memory = environment over the `c_locs` index space),
+tied to `LogicSim.cycle` by exact correspondence of the index tables and of `s[0]`, `s[1]` (harness/c01.py `cycle_tie`,
+m = 2, 4, 8). `sem` is any op semantics over any value domain `α` (one lane of `s[·, p, :mdim]`), `merge` what
+`s_ppo_to_ppi` makes of (old assignment, captured value): `Cycle.mergeCopy` for m = 2, 4; the transition builder for m = 8. -/
+open KV.Cycle in
+/-- (6) **one clock cycle.** For every well-formed netlist and topological order: let `val` be ANY labelling that solves the
+    gate equations under the assignment `s[0]` (i.e. `val (ppi_offset + p) = s[0][p]` for every position with a (P)PI slot,
+    every op equation holds; it is unique by `all_circuits_solution`). After `s_to_c; c_prop; c_to_s; s_ppo_to_ppi`:
+    (a) `s[1][p] = val l` for every position whose data pin 0 carries line `l` (ports and state elements);
+    (b) a flip-flop / latch with open data pin captures the constant slot; (c) a port without data pin keeps `s[1][p]`;
+    (d) `s[0][p]` of every port is unchanged; (e) `s[0][p]` of every state element is `merge old s[1][p]`. -/
+theorem cycle_step {α} (tbl : List PrefixRow) (net : Net) (order : List Nat)
+    (hwf : net.wfB = true) (ho : orderOKB net order = true) (sem : Op → List α → α) (merge : α → α → α) (d : α)
+    (st : St α) (h0 : st.s.s0.length = net.sNodes.length) (h1 : st.s.s1.length = net.sNodes.length)
+    (val : Nat → α)
+    (hval : SolvesJ (Jt net) sem ((genOps tbl net order false).map OpRow.toOp) (sToC (tabsOf net false) d st.s.s0 st.env) val) :
+    let r := cycle1 sem (sigOps tbl net order false) (tabsOf net false) merge d st
+    (∀ p l, p < net.sNodes.length → (sNodeAt net p).inPin 0 = some l → r.s.s1[p]? = some (val l)) ∧
+    (∀ p, net.io.length ≤ p → p < net.sNodes.length → (sNodeAt net p).inPin 0 = none → r.s.s1[p]? = some (val net.idx.zero)) ∧
+    (∀ p, p < net.io.length → (sNodeAt net p).inPin 0 = none → r.s.s1[p]? = st.s.s1[p]?) ∧
+    (∀ p, p < net.io.length → r.s.s0[p]? = st.s.s0[p]?) ∧
+    (∀ p, net.io.length ≤ p → p < net.sNodes.length → r.s.s0[p]? = some (merge (st.s.s0.getD p d) (r.s.s1.getD p d))) := by
+  intro r
+  have hr : r.s = stepS sem (sigOps tbl net order false) net false merge d st.env st.s := cycle1_s _ _ _ _ _ _ _ h0 h1
+  have hsol := sol_eq_val tbl net order hwf ho sem _ val hval
+  have hcap : ∀ p, solOf sem (sigOps tbl net order false) (tabsOf net false) d st.env st.s.s0 (capSig net false p)
+      = val (capSig net false p) := fun p => hsol _ (capSig_notJunk net hwf p)
+  have hpo : ∀ p, p < net.sNodes.length → (net.io.length ≤ p ∨ ((sNodeAt net p).inPin 0).isSome = true) →
+      r.s.s1[p]? = some (val (capSig net false p)) := by
+    intro p hp hc
+    rw [hr]
+    show (captureRow net false _ st.s.s1)[p]? = _
+    rw [captureRow_at net false _ _ p (by omega) (isPoppo_of net p hp hc), hcap]
+  refine ⟨?_, ?_, ?_, ?_, ?_⟩
+  · intro p l hp hl
+    rw [hpo p hp (Or.inr (by rw [hl]; rfl)), capSig_false, hl]
+  · intro p hio hp hl
+    rw [hpo p hp (Or.inl hio), capSig_false, hl]
+  · intro p hp hl
+    rw [hr]
+    exact captureRow_skip net false _ _ p (by unfold isPoppo; simp [hp, hl])
+  · intro p hp
+    rw [hr]
+    exact nextRow_port net false merge _ _ p hp
+  · intro p hio hp
+    have h1p := hpo p hp (Or.inl hio)
+    have : r.s.s1.getD p d = val (capSig net false p) := by rw [List.getD_eq_getElem?_getD, h1p]; rfl
+    rw [this, hr]
+    show (nextRow net false merge _ st.s.s0)[p]? = _
+    rw [nextRow_state net false merge d _ _ p hio (by omega), hcap]
+
+open KV.Cycle in
+/-- the constant-0 slot is an input of the equation system: every solution reads there what the memory held before -/
+theorem cycle_zero_slot {α} (tbl : List PrefixRow) (net : Net) (order : List Nat)
+    (hwf : net.wfB = true) (ho : orderOKB net order = true) (sem : Op → List α → α) (d : α) (a : List α) (env val : Nat → α)
+    (hval : SolvesJ (Jt net) sem ((genOps tbl net order false).map OpRow.toOp) (sToC (tabsOf net false) d a env) val) :
+    val net.idx.zero = env net.idx.zero := by
+  obtain ⟨hz, ht, hp⟩ := idx_vals net
+  have hj : Jt net net.idx.zero = false := by simp only [Jt, beq_eq_false_iff_ne]; omega
+  have hlt := orderOK_lt ho
+  rw [hval.1 _ hj (fun o ho' => genOps_out_ne_zero tbl net order hwf hlt o ho'), sToC_apply, if_neg]
+  intro hm
+  obtain ⟨px, hpx, he⟩ := List.mem_map.1 hm
+  have := pippi_sig net false px hpx
+  omega
+
+open KV.Cycle in
+/-- (7) **`cycle(k)` iterates the next-state function k times, primary-input rows untouched.** For every well-formed netlist,
+    topological order, value domain, `k`: with `N a := nextRow (the labelling computed under assignment a) a`
+    (`Cycle.nextState`: ports keep their value, state element `p` gets `merge a[p] (value of its captured signal)`),
+    (a) `s[0]` after `cycle(k)` is `N^k s[0]`; (b) the rows of the ports are the initial ones; (c) after `k = j + 1` cycles `s[1]`
+    is the capture of the labelling of assignment `N^j s[0]` written over the initial `s[1]`. The memory contents left by earlier
+    cycles do not matter: the labelling is taken with the memory `st.env` of before the call, only its never-written signals
+    (the constant slot) are read (`Cycle.solOf_agree`). By (7') the labelling is THE solution of the gate equations. -/
+theorem cycle_iter {α} (tbl : List PrefixRow) (net : Net) (order : List Nat)
+    (hwf : net.wfB = true) (ho : orderOKB net order = true) (sem : Op → List α → α) (merge : α → α → α) (d : α)
+    (st : St α) (h0 : st.s.s0.length = net.sNodes.length) (h1 : st.s.s1.length = net.sNodes.length) (k : Nat) :
+    let ops := sigOps tbl net order false
+    let N := Cycle.nextState sem ops net false merge d st.env
+    let r := cycleK sem ops (tabsOf net false) merge d k st
+    r.s.s0 = iter N k st.s.s0 ∧
+    (∀ p, p < net.io.length → r.s.s0[p]? = st.s.s0[p]?) ∧
+    (∀ j, k = j + 1 → r.s.s1 = captureRow net false (solOf sem ops (tabsOf net false) d st.env (iter N j st.s.s0)) st.s.s1) := by
+  intro ops N r
+  have hw : WOJ (Jt net) ops := by
+    show WOJ (Jt net) (sigOps tbl net order false)
+    rw [sigOps_false]; exact genOps_WOJ tbl net order false hwf ho
+  have hr : r.s = iter (stepS sem ops net false merge d st.env) k st.s :=
+    cycleK_s (Jt net) sem ops hw net false (capSig_notJunk net hwf) merge d st.env k st h0 h1 (Agree.refl _ _ _)
+  have hs0 : r.s.s0 = iter N k st.s.s0 := by rw [hr]; exact iter_stepS_s0 _ _ _ _ _ _ _ _ _
+  refine ⟨hs0, ?_, ?_⟩
+  · intro p hp
+    rw [hs0]; exact iter_nextState_port _ _ _ _ _ _ _ _ _ p hp
+  · intro j hj
+    subst hj
+    rw [hr]; exact iter_stepS_s1 _ _ _ _ _ _ _ _ _
+
+open KV.Cycle in
+/-- (7') the next-state function is defined by THE solution: for any labelling `val` that solves the gate equations under the
+    assignment `a`, `nextState a = nextRow val a` -/
+theorem nextState_unique {α} (tbl : List PrefixRow) (net : Net) (order : List Nat)
+    (hwf : net.wfB = true) (ho : orderOKB net order = true) (sem : Op → List α → α) (merge : α → α → α) (d : α)
+    (env : Nat → α) (a : List α) (val : Nat → α)
+    (hval : SolvesJ (Jt net) sem ((genOps tbl net order false).map OpRow.toOp) (sToC (tabsOf net false) d a env) val) :
+    Cycle.nextState sem (sigOps tbl net order false) net false merge d env a = nextRow net false merge val a :=
+  nextRow_congr net false merge _ _ a fun p => sol_eq_val tbl net order hwf ho sem _ val hval _ (capSig_notJunk net hwf p)
+
+open KV.Cycle in
+/-- (7'') the form the correspondence runs evaluate: the compiled driver runs `cycleKA` (memory as an array of `c_locs_len`
+    entries); it leaves the same `s` (and memory) as `cycleK`, for every well-formed netlist, order, `strip_forks` setting -/
+theorem cycle_array_form {α} (tbl : List PrefixRow) (net : Net) (order : List Nat) (strip : Bool)
+    (hwf : net.wfB = true) (ho : orderOKB net order = true) (sem : Op → List α → α) (merge : α → α → α) (d : α)
+    (k : Nat) (st : StA α) (hn : st.env.size = net.idx.len) :
+    toSt d (cycleKA sem (sigOps tbl net order strip) (tabsOf net strip) merge d k st) =
+      cycleK sem (sigOps tbl net order strip) (tabsOf net strip) merge d k (toSt d st) :=
+  cycleKA_eq sem _ _ merge d net.idx.len (sigOps_out tbl net order strip hwf (orderOK_lt ho)) (pippi_lt net strip) k st hn
+
+open KV.Cycle in
+/-- (8) **`cycle(k)` on memory = `cycle(k)` on signals.** `Cycle.cycleKM` (Proofs/CycleMem.lean) is the loop with `s_to_c` writing the
+    rows `c_locs[ppi_offset + p]`, the real op rows running on memory (one row per signal, any allocator, with or without
+    `c_reuse` / `strip_forks`), `c_to_s` reading the rows `c_locs[ppo_offset + p]`. If the real tables pass the map certificate
+    (C08, evaluated on every generated case) and the (P)PO slot of a state element with open data pin is the row of the
+    constant slot (`zeroCapB`, the D9 repair read off the table), then for every k, every
+    initial memory `m0` and every signal environment `env0` that agrees with it on the constant slot, the `s` array after k
+    cycles on memory is the `s` array of the signal-level model — to which (6), (7) apply. -/
+theorem cycle_on_memory {α} [Inhabited α] (tbl : List PrefixRow) (p : MapIn) (order : List Nat)
+    (hops : p.ops = genOps tbl p.net order p.strip) (hc : p.check = none) (hpos : 0 < p.capsMin)
+    (hzc : zeroCapB p = true)
+    (f : Nat → List α → α) (merge : α → α → α) (d : α) (k : Nat) (m0 : Int → α) (env0 : Nat → α) (s : S α)
+    (hz : m0 (p.loc p.ix.zero) = env0 p.ix.zero) :
+    (cycleKM p f (tabsOf p.net p.strip) merge d k ⟨m0, s⟩).s =
+      (cycleK (fun op => f op.code) (sigOps tbl p.net order p.strip) (tabsOf p.net p.strip) merge d k ⟨env0, s⟩).s := by
+  have hmap : p.ops.map (MapSound.sigOp p) = sigOps tbl p.net order p.strip := by
+    rw [hops]; rfl
+  rw [← hmap]
+  exact cycleKM_eq p hc hpos hzc f merge d k m0 env0 s hz
+
+open KV.Cycle in
+/-- (8') **end to end, sequential**: (7) for the loop ON MEMORY — for every well-formed netlist, topological order, accepted
+    certificate: `s[0]` after `cycle(k)` on memory is the k-fold next-state iterate, port rows untouched, `s[1]` the capture of
+    the labelling of the previous assignment. -/
+theorem cycle_end_to_end {α} [Inhabited α] (tbl : List PrefixRow) (p : MapIn) (order : List Nat)
+    (hwf : p.net.wfB = true) (ho : orderOKB p.net order = true) (hs : p.strip = false)
+    (hops : p.ops = genOps tbl p.net order false) (hc : p.check = none) (hpos : 0 < p.capsMin)
+    (hzc : zeroCapB p = true)
+    (f : Nat → List α → α) (merge : α → α → α) (d : α) (k : Nat) (m0 : Int → α) (env0 : Nat → α) (s : S α)
+    (hz : m0 (p.loc p.ix.zero) = env0 p.ix.zero)
+    (h0 : s.s0.length = p.net.sNodes.length) (h1 : s.s1.length = p.net.sNodes.length) :
+    let ops := sigOps tbl p.net order false
+    let N := Cycle.nextState (fun op => f op.code) ops p.net false merge d env0
+    let r := cycleKM p f (tabsOf p.net false) merge d k ⟨m0, s⟩
+    r.s.s0 = iter N k s.s0 ∧
+    (∀ q, q < p.net.io.length → r.s.s0[q]? = s.s0[q]?) ∧
+    (∀ j, k = j + 1 → r.s.s1 = captureRow p.net false
+        (solOf (fun op => f op.code) ops (tabsOf p.net false) d env0 (iter N j s.s0)) s.s1) := by
+  intro ops N r
+  have hm := cycle_on_memory tbl p order (by rw [hs]; exact hops) hc hpos hzc f merge d k m0 env0 s hz
+  rw [hs] at hm
+  have hi := cycle_iter tbl p.net order hwf ho (fun op => f op.code) merge d ⟨env0, s⟩ h0 h1 k
+  show (cycleKM p f (tabsOf p.net false) merge d k ⟨m0, s⟩).s.s0 = _ ∧ _
+  rw [hm]
+  exact hi
+
+/-- non-vacuity of (6), (7): a toggle flip-flop with enable (`q' = q XOR en`; ports `en`, `out = q`), natural order.
+    With `en = 1` the state has period 2; the port row stays as assigned; the output port captures the OLD state. -/
+def demoSeq : Net :=
+  { nodes := #[⟨"input", [], [some 0]⟩, ⟨"__fork__", [some 0], [some 1]⟩, ⟨"DFF", [some 5], [some 2]⟩,
+               ⟨"__fork__", [some 2], [some 3, some 6]⟩, ⟨"XOR2", [some 1, some 3], [some 4]⟩, ⟨"__fork__", [some 4], [some 5]⟩,
+               ⟨"output", [some 6], []⟩],
+    lines := #[⟨0, 0, 1, 0⟩, ⟨1, 0, 4, 0⟩, ⟨2, 0, 3, 0⟩, ⟨3, 0, 4, 1⟩, ⟨4, 0, 5, 0⟩, ⟨5, 0, 2, 0⟩, ⟨3, 1, 6, 0⟩],
+    io := [0, 6] }
+def demoSt (en q : Bool) : Cycle.St Bool := ⟨fun _ => false, ⟨[en, false, q], [false, false, false]⟩⟩
+def demoRun (k : Nat) (en q : Bool) : Cycle.S Bool :=
+  (Cycle.cycleK (fun op => semL2n op.code) (Cycle.sigOps Gen.kindPrefixes demoSeq [0, 1, 2, 3, 4, 5, 6] false)
+    (Cycle.tabsOf demoSeq false) Cycle.mergeCopy false k (demoSt en q)).s
+example : demoSeq.wfB = true ∧ orderOKB demoSeq [0, 1, 2, 3, 4, 5, 6] = true ∧ demoSeq.sNodes = [0, 6, 2] ∧
+    (demoSt true false).s.s0.length = demoSeq.sNodes.length ∧ (demoSt true false).s.s1.length = demoSeq.sNodes.length := by
+  decide +kernel
+example : Cycle.tabsOf demoSeq false =
+    { ppi := 10, ppo := 13, pippi := [(0, 10), (2, 12)], poppo := [(1, 6), (2, 5)], ppio := [2] } := by decide +kernel
+example : (demoRun 1 true false).s0 = [true, false, true] ∧ (demoRun 1 true false).s1 = [false, false, true] ∧
+    (demoRun 2 true false).s0 = [true, false, false] ∧ (demoRun 2 true false).s1 = [false, true, false] ∧
+    (demoRun 5 true false).s0 = [true, false, true] ∧ (demoRun 3 false true).s0 = [false, false, true] := by decide +kernel
+
+/-- non-vacuity of (6b): a flip-flop with OPEN data pin observed at a port — it captures the constant slot (the D9 repair) -/
+def demoOpen : Net :=
+  { nodes := #[⟨"DFF", [], [some 0]⟩, ⟨"__fork__", [some 0], [some 1]⟩, ⟨"output", [some 1], []⟩],
+    lines := #[⟨0, 0, 1, 0⟩, ⟨1, 0, 2, 0⟩], io := [2] }
+def demoOpenRun (k : Nat) : Cycle.S Bool :=
+  (Cycle.cycleK (fun op => semL2n op.code) (Cycle.sigOps Gen.kindPrefixes demoOpen [0, 1, 2] false)
+    (Cycle.tabsOf demoOpen false) Cycle.mergeCopy false k ⟨fun _ => false, ⟨[false, true], [false, false]⟩⟩).s
+example : demoOpen.wfB = true ∧ orderOKB demoOpen [0, 1, 2] = true ∧ demoOpen.sNodes = [2, 0] ∧
+    Cycle.tabsOf demoOpen false = { ppi := 5, ppo := 7, pippi := [(1, 6)], poppo := [(0, 1), (1, 2)], ppio := [1] } ∧
+    (demoOpenRun 1).s1 = [true, false] ∧ (demoOpenRun 1).s0 = [false, false] ∧ (demoOpenRun 2).s1 = [false, false] := by
+  decide +kernel
+
+/-- a flip-flop WITHOUT output pin list has no (P)PI slot: `s_to_c` skips it (`pippi` lists position 0 only), `c_to_s` and
+    `s_ppo_to_ppi` still capture and move its state (the table after fix 7a998c8 of sim.py) -/
+def demoNoOut : Net :=
+  { nodes := #[⟨"input", [], [some 0]⟩, ⟨"__fork__", [some 0], [some 1]⟩, ⟨"DFF", [some 1], []⟩],
+    lines := #[⟨0, 0, 1, 0⟩, ⟨1, 0, 2, 0⟩], io := [0] }
+example : demoNoOut.wfB = true ∧ orderOKB demoNoOut [0, 1, 2] = true ∧ demoNoOut.sNodes = [0, 2] ∧
+    Cycle.tabsOf demoNoOut false = { ppi := 5, ppo := 7, pippi := [(0, 5)], poppo := [(1, 1)], ppio := [1] } ∧
+    (Cycle.cycleK (fun op => semL2n op.code) (Cycle.sigOps Gen.kindPrefixes demoNoOut [0, 1, 2] false)
+      (Cycle.tabsOf demoNoOut false) Cycle.mergeCopy false 1 ⟨fun _ => false, ⟨[true, false], [false, false]⟩⟩).s.s0 = [true, true] := by
+  decide +kernel
+
+/-- non-vacuity of (8), (8'): the REAL tables of `LogicSim(c_reuse=True)` for `demoSeq` and the REAL `topological_order()` -/
+def demoSeqMap : MapIn :=
+  { net := demoSeq, strip := false,
+    ops := [⟨43690, 0, 10, 7, 7, 7⟩, ⟨43690, 2, 12, 7, 7, 7⟩, ⟨43690, 1, 0, 7, 7, 7⟩, ⟨43690, 3, 2, 7, 7, 7⟩,
+            ⟨43690, 6, 2, 7, 7, 7⟩, ⟨26214, 4, 1, 3, 7, 7⟩, ⟨43690, 5, 4, 7, 7, 7⟩],
+    starts := [0, 2, 5, 6], locs := #[5, 7, 6, 8, 5, 6, 9, 0, 1, 2, 3, -1, 4, -1, 9, 6],
+    caps := #[1, 1, 1, 1, 1, 1, 1, 1, 1, 1, 1, 0, 1, 0, 1, 1], cLen := 10, capsMin := 1 }
+example : demoSeqMap.ops = genOps Gen.kindPrefixes demoSeq [0, 2, 1, 3, 4, 6, 5] false ∧ demoSeqMap.check = none ∧
+    orderOKB demoSeq [0, 2, 1, 3, 4, 6, 5] = true ∧ Cycle.zeroCapB demoSeqMap = true := by
+  decide +kernel
+
+open KV.Cycle in
+/-- (10) **`cycle(k)` does not depend on `strip_forks`** (C06 through the clock loop). For every well-formed netlist, topological
+    order that respects the fork conventions (`forksOKB`, C06) and contains the driver of every captured line (`capDriversB`;
+    `topological_order()` lists every node), any value domain and code-indexed op semantics in which `BUF1` returns its first
+    operand (the generated 2-, 4-, 8-valued dispatchers: C06 `buf1_first_operand`), any `merge`, any `k`: the stripped simulator
+    (rows without forks, operands and captures resolved to the stems) and the un-stripped one leave the same `s[0]`, `s[1]`.
+    The two memories differ on the branch signals; both hypotheses are evaluated on every generated circuit. -/
+theorem cycle_strip_irrelevant {α} (tbl : List PrefixRow) (net : Net) (order : List Nat)
+    (hwf : net.wfB = true) (ho : orderOKB net order = true) (hf : forksOKB net order = true)
+    (hcov : capDriversB net order = true)
+    (f : Nat → List α → α) (dflt : α) (hbuf : ∀ xs, f BUF1 xs = xs.getD 0 dflt) (merge : α → α → α) (d : α)
+    (k : Nat) (st : St α) (h0 : st.s.s0.length = net.sNodes.length) (h1 : st.s.s1.length = net.sNodes.length) :
+    (cycleK (fun op => f op.code) (sigOps tbl net order true) (tabsOf net true) merge d k st).s =
+      (cycleK (fun op => f op.code) (sigOps tbl net order false) (tabsOf net false) merge d k st).s :=
+  cycleK_strip tbl hwf ho hf hcov f dflt hbuf merge d k st st rfl h0 h1 (Agree.refl _ _ _)
+
+example : forksOKB demoSeq [0, 2, 1, 3, 4, 6, 5] = true ∧ Cycle.capDriversB demoSeq [0, 2, 1, 3, 4, 6, 5] = true ∧
+    (∀ xs, semL2n BUF1 xs = xs.getD 0 false) := ⟨by decide +kernel, by decide +kernel, semL2n_buf1⟩
+
 /-- (5) lane-wise for every lane count: lane `k` of the bit-parallel result is the per-lane function -/
 theorem lanewise2 (w k : Nat) (hk : k < w) (code : Nat) (a b c d : BitVec w) :
     (Gen.sem2n code a b c d).getLsbD k = Gen.sem2n code (a.getLsbD k) (b.getLsbD k) (c.getLsbD k) (d.getLsbD k) :=
@@ -212,6 +482,32 @@ theorem sim2_lanes (w k : Nat) (hk : k < w) (ops : List Op) (env : Nat → BitVe
   have h0 := hxy.getD 0 _ _ hd; have h1 := hxy.getD 1 _ _ hd
   have h2 := hxy.getD 2 _ _ hd; have h3 := hxy.getD 3 _ _ hd
   simp only [arg]; rw [h0, h1, h2, h3]
+
+open KV.Cycle in
+/-- (9) **lanes through the clock loop**: `cycle(k)` of the bit-parallel simulator (one `BitVec w` per signal / `s` entry, any
+    batch size `w`) shows in lane `k` exactly `cycle(k)` of the one-lane simulator on lane `k` of the initial state — for every op
+    program, index tables and number of cycles: lanes stay independent over any number of cycles, padding lanes never leak.
+    (`Cycle.cycleK_rel`: every relation the ops and `merge` preserve is preserved by the loop.) -/
+theorem cycle_lanes (w k : Nat) (hk : k < w) (ops : List Op) (T : Tabs) (n : Nat) (st : St (BitVec w)) :
+    let r := cycleK (fun op => semLw w op.code) ops T mergeCopy 0 n st
+    let rb := cycleK (fun op => semL2n op.code) ops T mergeCopy false n
+      ⟨fun x => (st.env x).getLsbD k, ⟨st.s.s0.map (·.getLsbD k), st.s.s1.map (·.getLsbD k)⟩⟩
+    r.s.s0.map (·.getLsbD k) = rb.s.s0 ∧ r.s.s1.map (·.getLsbD k) = rb.s.s1 := by
+  intro r rb
+  have hd : (0 : BitVec w).getLsbD k = false := by simp
+  have hop : ∀ op ∈ ops, ∀ (xs : List (BitVec w)) (ys : List Bool), All2 (fun v b => v.getLsbD k = b) xs ys →
+      (semLw w op.code xs).getLsbD k = semL2n op.code ys := by
+    intro op _ xs ys hxy
+    unfold semLw semL2n
+    rw [lanewise2 w k hk]
+    have h0 := hxy.getD 0 _ _ hd; have h1 := hxy.getD 1 _ _ hd
+    have h2 := hxy.getD 2 _ _ hd; have h3 := hxy.getD 3 _ _ hd
+    simp only [arg]; rw [h0, h1, h2, h3]
+  have h := cycleK_rel (fun (v : BitVec w) (b : Bool) => v.getLsbD k = b) (fun op => semLw w op.code) (fun op => semL2n op.code)
+    ops hop T mergeCopy mergeCopy (fun _ _ _ _ _ h => h) 0 false hd n st
+    ⟨fun x => (st.env x).getLsbD k, ⟨st.s.s0.map (·.getLsbD k), st.s.s1.map (·.getLsbD k)⟩⟩
+    ⟨fun _ => rfl, All2.of_map _ _, All2.of_map _ _⟩
+  exact ⟨h.s0.map_eq, h.s1.map_eq⟩
 
 /-- non-vacuity of (4): a two-op program -/
 example : exec semL2n [⟨34952, 10, [0, 1, 9, 9]⟩, ⟨21845, 11, [10, 9, 9, 9]⟩] (fun l => l == 0 || l == 1) 11 = false := by
